@@ -154,4 +154,28 @@ Fixpoint wf_from (k : sctx) (ls : list pline) : bool :=
   end.
 
 Definition wf (ls : list pline) : bool := wf_from K0 ls.
+
+(* The same with one relaxation, used only to delimit a known finding: a
+   backslash INSIDE a character literal is an ordinary character of the literal
+   (Fortran has no escapes), provided it is not the last character of its line
+   (where the preprocessor splices). *)
+Definition cguard_x (s : sst) (k : cls) : bool :=
+  match k, s with
+  | kBs, ((SIn (XLit _) | SAmp (XLit _)), _) => true
+  | _, _ => cguard s k
+  end.
+Fixpoint cguards_x (s : sst) (cs : list ascii) : bool :=
+  match cs with
+  | [] => true
+  | c :: r => cguard_x s (cls_of c) && cguards_x (sstep s (cls_of c)) r
+  end.
+Definition ends_bs (cs : list ascii) : bool :=
+  match split_last cs with Some (_, z) => is_bs z | None => false end.
+Fixpoint wfx_from (k : sctx) (ls : list pline) : bool :=
+  match ls with
+  | [] => match k with K0 => true | _ => false end
+  | (cs, _) :: r => cguards_x (SBol k, mU) cs && negb (ends_bs cs) && eguard (sline k cs)
+                    && wfx_from (seol (fst (sline k cs))) r
+  end.
+Definition wf_x (ls : list pline) : bool := wfx_from K0 ls.
 Definition S_lines (ls : list pline) : list (nat * bool) := sfile K0 1 ls.
